@@ -408,20 +408,18 @@ def run(rep, tier, seed, replay=None):
         return mout.split("\n")
 
     def probe_variant(powtab):
-        """ScalImpl.v mirrors two variants of the arithmetic (see its header): pick, per flag, the one that reproduces the
-        library on a few probe lines; the full correspondence run below then has to agree everywhere."""
+        """ScalImpl.v mirrors two variants of the arithmetic per flag (see its header): pick the combination that reproduces
+        the library on a few probe lines (none: keep 0 0); the full correspondence run below then has to agree everywhere."""
         pn = ["D -5 0 15 2067 41e8699e58000000", "R -5 0 15 2067 32766", "R -3 -65536 17 14001 7", "X -5 -16384 15 14192 c1d86a0000000000",
               "R -11 0 28 1001 99999", "D -1 -1000 8 1001 c0c3880000000000"]
         pf = ["R 8 -100000 23 15037 8388606", "R 12 -8388607 3 1001 3", "R -10 -8388606 23 1001 255", "R 5 -8388607 23 31001 65536",
               "R 11 5 20 1001 77777", "R -2 3 16 1001 4097"]
         rc, cn, _ = vlib.run_cases(exe, "\n".join(pn + pf) + "\n")
-        for flag, lo, hi in ((0, 0, len(pn)), (1, len(pn), len(pn) + len(pf))):
-            for val in (0, 1):
-                var = [0, 0]; var[flag] = val
-                mo = run_model((pn + pf)[lo:hi], powtab, var)
-                if all(c.split()[:4] == m.split()[:4] for c, m in zip(cn[lo:hi], mo)):
-                    variant[flag] = val
-                    break
+        for var in ([0, 0], [1, 1], [1, 0], [0, 1]):
+            mo = run_model(pn + pf, powtab, var)
+            if all(c.split()[:4] == m.split()[:4] for c, m in zip(cn, mo)):
+                variant[0], variant[1] = var
+                return
 
     def run_both(lines, powtab):
         text = "\n".join(lines) + "\n"
